@@ -50,6 +50,9 @@ type IterV struct {
 	Map     *MapV
 	Visited *Term // Array K -> Bool
 	id      int
+	// range over a string: the byte position of the next rune
+	Str *StrV
+	Pos *Term
 }
 
 func (x *Exec) newLoopCtx(fn *ssa.Function, fi *fnInfo) *loopCtx {
@@ -240,8 +243,12 @@ func (l *loopCtx) edge(from *ssa.BasicBlock, succIdx int, cond *Term, st *State)
 	return true
 }
 
-// rangeStart: only maps (slices and strings are lowered to index loops by go/ssa).
+// rangeStart: maps and strings (slices are lowered to index loops by go/ssa).
 func (x *Exec) rangeStart(i *ssa.Range, v Value) Value {
+	if s, ok := v.(*StrV); ok {
+		x.seq++
+		return &IterV{Str: s, Pos: x.b.Const(64, 0), id: x.seq}
+	}
 	m, ok := v.(*MapV)
 	if !ok {
 		unsupported("range over %T", v)
@@ -260,6 +267,9 @@ func (x *Exec) rangeNext(iter Value, st *State, pc *Term) Value {
 	it, ok := iter.(*IterV)
 	if !ok {
 		unsupported("next on %T", iter)
+	}
+	if it.Str != nil {
+		return x.strNext(it, st, pc)
 	}
 
 	m := it.Map
@@ -302,6 +312,53 @@ func (x *Exec) rangeNext(iter Value, st *State, pc *Term) Value {
 		val = x.zeroV(mt.Elem())
 	}
 	return &TupleV{E: []Value{okv, k, val}}
+}
+
+// strNext: one step of a range-over-string iteration: ok = the position is
+// inside the string, key = the byte position, value = the rune decoded there
+// exactly as the runtime does (utf8.DecodeRuneInString: an invalid or
+// truncated encoding yields U+FFFD and advances by one byte).
+func (x *Exec) strNext(it *IterV, st *State, pc *Term) Value {
+	b := x.b
+	s, pos := it.Str, it.Pos
+	okv := b.Cmp("bvslt", pos, s.Len)
+	at := func(k uint64) (*Term, *Term) { // byte pos+k (0 outside the string), and whether it is inside
+		p := b.Bin("bvadd", pos, b.Const(64, k))
+		in := b.Cmp("bvslt", p, s.Len)
+		return b.Ite(in, x.strByte(s, p, st), b.Const(8, 0)), in
+	}
+	b0, _ := at(0)
+	b1, in1 := at(1)
+	b2, in2 := at(2)
+	b3, in3 := at(3)
+	c8 := func(v uint64) *Term { return b.Const(8, v) }
+	between := func(t *Term, lo, hi uint64) *Term {
+		return b.And(b.Cmp("bvule", c8(lo), t), b.Cmp("bvule", t, c8(hi)))
+	}
+	cont := func(t, in *Term) *Term { return b.And(in, between(t, 0x80, 0xBF)) }
+	low := func(t *Term, mask uint64) *Term { return b.ZExt(32, b.Bin("bvand", t, c8(mask))) }
+	shl := func(t *Term, n uint64) *Term { return b.Bin("bvshl", t, b.Const(32, n)) }
+	or := func(ts ...*Term) *Term {
+		r := ts[0]
+		for _, t := range ts[1:] {
+			r = b.Bin("bvor", r, t)
+		}
+		return r
+	}
+	ascii := b.Cmp("bvult", b0, c8(0x80))
+	two := b.And(between(b0, 0xC2, 0xDF), cont(b1, in1))
+	sec3 := b.Ite(b.Eq(b0, c8(0xE0)), between(b1, 0xA0, 0xBF), b.Ite(b.Eq(b0, c8(0xED)), between(b1, 0x80, 0x9F), between(b1, 0x80, 0xBF)))
+	three := b.AndN(between(b0, 0xE0, 0xEF), in1, sec3, cont(b2, in2))
+	sec4 := b.Ite(b.Eq(b0, c8(0xF0)), between(b1, 0x90, 0xBF), b.Ite(b.Eq(b0, c8(0xF4)), between(b1, 0x80, 0x8F), between(b1, 0x80, 0xBF)))
+	four := b.AndN(between(b0, 0xF0, 0xF4), in1, sec4, cont(b2, in2), cont(b3, in3))
+	r := b.Ite(ascii, b.ZExt(32, b0),
+		b.Ite(two, or(shl(low(b0, 0x1F), 6), low(b1, 0x3F)),
+			b.Ite(three, or(shl(low(b0, 0x0F), 12), shl(low(b1, 0x3F), 6), low(b2, 0x3F)),
+				b.Ite(four, or(shl(low(b0, 0x07), 18), shl(low(b1, 0x3F), 12), shl(low(b2, 0x3F), 6), low(b3, 0x3F)),
+					b.Const(32, 0xFFFD)))))
+	w := b.Ite(ascii, b.Const(64, 1), b.Ite(two, b.Const(64, 2), b.Ite(three, b.Const(64, 3), b.Ite(four, b.Const(64, 4), b.Const(64, 1)))))
+	it.Pos = b.Ite(b.And(pc, okv), b.Bin("bvadd", pos, w), pos)
+	return &TupleV{E: []Value{okv, pos, r}}
 }
 
 var _ = types.Typ
